@@ -4,6 +4,14 @@ import io
 import petl as etl
 
 
+class Boom(Exception):
+    """Injected failure; carries where it was injected."""
+
+    def __init__(self, at):
+        Exception.__init__(self, "injected failure at item %r" % (at,))
+        self.at = at
+
+
 class Counting(etl.Table):
     """A table over a list of rows that counts header pulls and data-row pulls, per iterator
     and in total.  `rows` may be edited between passes (histories of C11)."""
@@ -14,6 +22,7 @@ class Counting(etl.Table):
         self.data_pulls = 0
         self.iterators = 0
         self.exhausted = 0
+        self.fail_at = None   # when set: raise Boom instead of yielding data row number fail_at (0-based)
 
     def __iter__(self):
         self.iterators += 1
@@ -24,20 +33,14 @@ class Counting(etl.Table):
             if i == 0:
                 self.header_pulls += 1
             else:
+                if self.fail_at is not None and i - 1 == self.fail_at:
+                    raise Boom(("data-row", self.fail_at))
                 self.data_pulls += 1
             yield r
         self.exhausted += 1
 
     def reset(self):
         self.header_pulls = self.data_pulls = self.iterators = self.exhausted = 0
-
-
-class Boom(Exception):
-    """Injected failure; carries where it was injected."""
-
-    def __init__(self, at):
-        Exception.__init__(self, "injected failure at item %r" % (at,))
-        self.at = at
 
 
 class Failing(etl.Table):
